@@ -100,7 +100,13 @@ def check(ck: Checker) -> None:
     gh = prog.func("hashfile.build", "_get_hashes")
     # threshold routing only chooses the list; both lists go to the same hashing call
     hf_calls = [c for c in walk_own(gh.node) if isinstance(c, ast.Call) and call_name(c) == "_hash_files"]
-    ck.require(len(hf_calls) == 1 and [norm(a) for a in hf_calls[0].args[:2]] == ["small_files", "large_files"], "C03.bypath", gh, gh.node, "small and large files are hashed by one call", f"threshold routing feeds {[norm(c) for c in hf_calls]}", construct="_hash_files(small_files, large_files, ...)")
+    # the buckets: lists appended to inside _get_hashes' routing loop (by name or as fields of one record)
+    buckets = sorted({norm(a.value) for a in walk_own(gh.node) if isinstance(a, ast.Attribute) and a.attr == "append" and isinstance(a.ctx, ast.Load)} - {"hashes"})
+    fed = set()
+    if len(hf_calls) == 1:
+        argtxt = [norm(a) for a in list(hf_calls[0].args) + [k.value for k in hf_calls[0].keywords]]
+        fed = {b for b in buckets if any(b == a or b.split(".")[0] == a for a in argtxt)}
+    ck.require(len(hf_calls) == 1 and len(buckets) >= 2 and fed == set(buckets), "C03.bypath", gh, gh.node, "small and large files are hashed by one call", f"threshold routing feeds {[norm(c) for c in hf_calls]} with buckets {buckets}", construct="_hash_files(small_files, large_files, ...)")
 
     # --------------------------------------------------------------- subtree
     go = prog.func("hashfile.tree", "Tree.get_obj")
